@@ -134,10 +134,10 @@ RULE_STATIC = (
     'not part of this stream; a callFunction listener counts the dispatches of the name: a fn shard without violation whose '
     'number of dispatches differs from its number of calls is a '
     'harness error; fn-edge (a strings case per name) = every name on numeric edges written as literals: 29 numbers (incl. 2^53+1 and its negative, and the float twins 10^15/1, -(10^15/1), 2^70/1, 10^300/1 of huge whole numbers; +-0.5, '
-    '+-10^-9, 0, -0, +-1, +-1.5, 2, 36, 37, +-255, +-10^15, +-10^300, 2^53, +-(2^53+1), 0.1, 0.25, -2.5) alone and in all 25^2 pairs, 7 numeric '
+    '+-10^-9, 0, -0, +-1, +-1.5, 2, 36, 37, +-255, +-10^15, +-10^300, 2^53, +-(2^53+1), 0.1, 0.25, -2.5) alone and in all 29^2 pairs, 7 numeric '
     'texts at the edges of float() ("1e400", "nan", "inf", "1e-400", REPT("9",400), ...) alone and paired both ways with 6 '
-    'small numbers, 40 (600) x scale seeded triples (at most all 13^3) over 13 of the numbers (the first 12 and 10^15): 781 '
-    '(1341) calls per name at scale 1; fn-pattern = one case '
+    'small numbers, 40 (600) x scale seeded triples (at most all 13^3) over 13 of the numbers (the first 12 and 10^15): 1001 '
+    '(1561) calls per name at scale 1 (29 + 841 + 7 + 84 + 40 (600)); fn-pattern = one case '
     'of 242 calls: 11 wildcard patterns whose literal tail occurs in neither text (6..24 groups "*-" or "*a", 14 x "?*", 30 x '
     '"*", also behind the criteria prefixes <> and =) x 2 texts (48 words joined by "-"; 40 x "a") x COUNTIF, SUMIF, '
     'AVERAGEIF, their ...IFS forms, MAXIFS and MATCH over {text,text,1}, SEARCH, FIND, SUBSTITUTE on the text; fn-empty (a '
